@@ -314,12 +314,23 @@ def shrink_graph(case):
     """Candidates with one node, one neighbour entry or one outside key removed (plain data in, plain data out)."""
     nodes = case["nodes"]
     adj = case["adj"]
-    if len(nodes) > 1:
-        for v in nodes:
-            c = dict(case)
-            c["nodes"] = [x for x in nodes if x != v]
-            c["adj"] = {k: [w for w in ws if w != v] for k, ws in adj.items() if k != v}
-            yield c
+
+    def without(drop):
+        drop = set(drop)
+        c = dict(case)
+        c["nodes"] = [x for x in nodes if x not in drop]
+        c["adj"] = {k: [w for w in ws if w not in drop] for k, ws in adj.items() if k not in drop}
+        return c
+
+    # coarse to fine: halves, quarters, ... single nodes (a 300-node witness must not need 300 re-runs per step)
+    n = len(nodes)
+    size = n // 2
+    while size >= 1 and n > 1:
+        for start in range(0, n, size):
+            chunk = nodes[start:start + size]
+            if 0 < len(chunk) < n:
+                yield without(chunk)
+        size //= 2
     for k in list(adj):
         if k not in nodes:
             c = dict(case)
